@@ -197,6 +197,30 @@ class Ctx:
         self.pc.append(cond if d else z3.Not(cond))
         return d
 
+    def branch_pair(self, g_true, g_false):
+        """Branch on a condition whose two sides were translated separately (quantified clauses
+        are skolemised per polarity, so `not g_true` is NOT the right assumption for False)."""
+        if isinstance(g_true, bool):
+            return g_true
+        k = len(self.taken)
+        if k < len(self.decisions):
+            d = self.decisions[k]
+        else:
+            can_t = self.feasible(b2z(g_true))
+            can_f = self.feasible(b2z(g_false))
+            if can_t and can_f:
+                self.alts.append(self.taken + [False])
+                d = True
+            elif can_t:
+                d = True
+            elif can_f:
+                d = False
+            else:
+                raise Infeasible()
+        self.taken.append(d)
+        self.pc.append(b2z(g_true) if d else b2z(g_false))
+        return d
+
     def choose(self, nalts):
         """Nondeterministic n-way choice (loop cut: iterate vs exit)."""
         k = len(self.taken)
